@@ -7,6 +7,7 @@ package capacity
 import (
 	"context"
 	"fmt"
+	"os"
 	"sort"
 	"strings"
 	"testing"
@@ -25,6 +26,9 @@ type kScenario struct {
 	Budget   int       `json:"op_budget"`
 	Horizon  int       `json:"horizon"`
 	Alphabet []kAction `json:"-"`
+	// Script, if set: no exploration - the fixed action list is executed once and drained
+	// (confirmation of a finding at the production constant)
+	Script []kAction `json:"-"`
 }
 
 type kReplay struct {
@@ -497,6 +501,28 @@ func kRun(r *vk.Run, prop string, scenarios []kScenario, c09, c13 bool, rule str
 	var per []string
 	unit := 0
 	for _, sc := range scenarios {
+		if sc.Script != nil {
+			unit++
+			if unit%n != idx {
+				continue
+			}
+			c := &kCtx{r: r, prop: prop, sc: sc, actID: map[string]int{}, checkC09: c09, checkC13: c13, outcomes: map[string]bool{}}
+			k := kNew(sc.Initial, sc.ChanCap)
+			var ids []int
+			for _, a := range sc.Script {
+				k.do(a)
+				ids = append(ids, c.id(a))
+				r.Eval(1)
+			}
+			c.drain(k, ids[:len(ids)-1], ids[len(ids)-1])
+			k.close()
+			trans += int64(len(ids))
+			states++
+			terminals += c.terminals
+			deadlocks += c.deadlocks
+			per = append(per, fmt.Sprintf("%s: scripted %d actions at chan_cap=%d, deadlocked=%d", sc.Name, len(ids), sc.ChanCap, c.deadlocks))
+			continue
+		}
 		k0 := kNew(sc.Initial, sc.ChanCap)
 		first := k0.enabled(sc.Alphabet, sc.Budget)
 		initKey := k0.stateKey(nil, sc.Budget, "")
@@ -583,6 +609,19 @@ func TestVerifC13(t *testing.T) {
 			// stopping the keeper at any moment is an action of its own
 			alpha = append(alpha, kAction{Kind: "kstop", WS: -1})
 			scs = append(scs, kScenario{Name: fmt.Sprintf("cap%d-%s", cap, init), Initial: init, ChanCap: cap, Budget: b, Horizon: h, Alphabet: alpha})
+		}
+	}
+	if r.Thorough() {
+		// the finding at the production constant: a plot is in progress, 1024 plot requests fill
+		// the channel, request 1025 blocks holding the lock, the finished plot cannot take it
+		script := []kAction{{Kind: "op", Op: "plot", WS: 1}, {Kind: "gate", Name: "idle", WS: -1}, {Kind: "gate", Name: "popped", WS: -1}, {Kind: "gate", Name: "step1.done", WS: -1}}
+		for i := 0; i < 1025; i++ {
+			script = append(script, kAction{Kind: "op", Op: "plot", WS: 0})
+		}
+		script = append(script, kAction{Kind: "env", Name: "done", WS: -1})
+		scs = append(scs, kScenario{Name: "scripted-cap1024", Initial: "RR", ChanCap: plotterMaxChanSize, Budget: 2000, Horizon: 2000, Script: script})
+		if os.Getenv("VERIF_C13_ONLY_SCRIPT") != "" {
+			scs = scs[len(scs)-1:]
 		}
 	}
 	kRun(r, "C13", scs, false, true,
